@@ -402,6 +402,9 @@ def run_texts(sh, n):
         r = rnd.random()
         if r < 0.75:
             gid, gtext = rnd.choice(FIXED)
+            if rnd.random() < 0.01:
+                # a digit run longer than int() converts (sys.get_int_max_str_digits); texts are unbounded in the statement
+                text = rnd.choice(['', '-', '1 ']) + rnd.choice('123456789') * rnd.choice([4301, 5000]) + rnd.choice(['', ' x', '.5'])
             if rnd.random() < 0.5 and gid in SEEDS:
                 seed = rnd.choice(SEEDS[gid])
                 k = rnd.random()
